@@ -502,3 +502,120 @@ impl Bitfield {
         });
     }
 }
+
+// ---------------------------------------------------------------------------------------------
+// C01 / C03 / C21 under ALL interleavings with any number of other threads, bitfield level:
+// call contracts of the bit-claiming functions against the rely/guarantee environment of
+// `atomic::verif_contracts::env`.
+//   allocation  Ok(block) => ownership grew by exactly that block;  Err => ownership unchanged
+//   free of a held block  => returns Ok, ownership shrank by exactly the block
+//   no panic (undo paths included), every loop exits within its bound
+// ---------------------------------------------------------------------------------------------
+use crate::atomic::verif_contracts::env;
+
+fn rg_start(b: &Bitfield, rows: &Rows) -> Rows {
+    // this thread may already own any subset of the allocated bits
+    let own: Rows = {
+        let a = any_rows();
+        let mut o = [0u64; ROWS];
+        for_rows!(r, {
+            o[r] = a[r] & rows[r];
+        });
+        o
+    };
+    unsafe {
+        env::BASE = &b.data[0] as *const Atom<u64> as usize;
+        env::NWORDS = ROWS;
+        let mut r = 0;
+        while r < ROWS && r < env::MAXW {
+            env::OWN[r] = own[r];
+            r += 1;
+        }
+        env::BUDGET = kani::any();
+        env::ON = true;
+    }
+    own
+}
+fn rg_own() -> Rows {
+    let mut o = [0u64; ROWS];
+    let mut r = 0;
+    while r < ROWS && r < env::MAXW {
+        o[r] = unsafe { env::OWN[r] };
+        r += 1;
+    }
+    o
+}
+
+fn rg_set_first_zeros<const ORDER: usize>() {
+    let rows = any_rows();
+    let b = bitfield_from(rows);
+    let own0 = rg_start(&b, &rows);
+    let start: usize = kani::any();
+    kani::assume(start < (1usize << 40));
+    let r = b.set_first_zeros(RowId(start), ORDER);
+    let own = rg_own();
+    vcover!(r.is_ok(), "allocation under interference succeeds");
+    vcover!(r.is_err(), "allocation under interference fails");
+    match r {
+        Ok(off) => {
+            clause!(off.0 < Bitfield::LEN && off.0 % (1usize << ORDER) == 0, "C01: returned block aligned and inside the bitfield");
+            let bl = blk(off.0, ORDER);
+            clause!(blk_all(&own0, &bl, false), "C01: the returned block was not already held by this thread");
+            clause!(rows_with_blk(&own0, &own, &bl, true), "C01: a successful allocation owns exactly the returned block, under every interleaving");
+        }
+        Err(_) => clause!(rows_eq(&own0, &own), "C01: a failed allocation keeps nothing, under every interleaving"),
+    }
+}
+fn rg_toggle_alloc<const ORDER: usize>() {
+    let rows = any_rows();
+    let b = bitfield_from(rows);
+    let own0 = rg_start(&b, &rows);
+    let i: usize = kani::any();
+    kani::assume(i % (1usize << ORDER) == 0 && i < Bitfield::LEN);
+    let r = b.toggle(FrameId(i), ORDER, false);
+    let own = rg_own();
+    let bl = blk(i, ORDER);
+    vcover!(r.is_ok(), "targeted claim succeeds");
+    vcover!(r.is_err(), "targeted claim fails");
+    if r.is_ok() {
+        clause!(blk_all(&own0, &bl, false), "C01: the claimed block was not already held by this thread");
+        clause!(rows_with_blk(&own0, &own, &bl, true), "C01: a successful targeted claim owns exactly the block, under every interleaving");
+    } else {
+        clause!(rows_eq(&own0, &own), "C01: a failed targeted claim keeps nothing, under every interleaving");
+    }
+}
+fn rg_toggle_free<const ORDER: usize>() {
+    let rows = any_rows();
+    let b = bitfield_from(rows);
+    let own0 = rg_start(&b, &rows);
+    let i: usize = kani::any();
+    kani::assume(i % (1usize << ORDER) == 0 && i < Bitfield::LEN);
+    let bl = blk(i, ORDER);
+    kani::assume(blk_all(&own0, &bl, true)); // the caller holds the block
+    let r = b.toggle(FrameId(i), ORDER, true);
+    let own = rg_own();
+    clause!(r.is_ok(), "C03: the free of a held block succeeds under every interleaving");
+    clause!(rows_with_blk(&own0, &own, &bl, false), "C01: a free releases exactly the block");
+}
+macro_rules! rg_harness {
+    ($f:ident, $($name:ident: $o:expr),+) => {
+        $(
+        #[kani::proof]
+        #[kani::unwind(10)]
+        #[kani::solver(kissat)]
+        #[kani::stub(crate::atomic::Atom::load, crate::atomic::Atom::load_rg)]
+        #[kani::stub(crate::atomic::Atom::store, crate::atomic::Atom::store_rg)]
+        #[kani::stub(crate::atomic::Atom::compare_exchange, crate::atomic::Atom::compare_exchange_rg)]
+        #[kani::stub(crate::atomic::Atom::try_update, crate::atomic::Atom::try_update_rg)]
+        fn $name() {
+            $f::<$o>();
+        }
+        )+
+    };
+}
+rg_harness!(rg_set_first_zeros, rg_set_first_zeros_o0: 0, rg_set_first_zeros_o1: 1, rg_set_first_zeros_o2: 2, rg_set_first_zeros_o3: 3, rg_set_first_zeros_o4: 4,
+    rg_set_first_zeros_o5: 5, rg_set_first_zeros_o6: 6, rg_set_first_zeros_o7: 7, rg_set_first_zeros_o8: 8, rg_set_first_zeros_o9: 9);
+rg_harness!(rg_toggle_alloc, rg_toggle_alloc_o0: 0, rg_toggle_alloc_o2: 2, rg_toggle_alloc_o3: 3, rg_toggle_alloc_o4: 4, rg_toggle_alloc_o5: 5, rg_toggle_alloc_o6: 6,
+    rg_toggle_alloc_o7: 7, rg_toggle_alloc_o8: 8, rg_toggle_alloc_o9: 9);
+rg_harness!(rg_toggle_free, rg_toggle_free_o0: 0, rg_toggle_free_o2: 2, rg_toggle_free_o3: 3, rg_toggle_free_o4: 4, rg_toggle_free_o5: 5, rg_toggle_free_o6: 6,
+    rg_toggle_free_o7: 7, rg_toggle_free_o8: 8, rg_toggle_free_o9: 9);
